@@ -32,7 +32,7 @@ def bounded(check):
     except ValueError:
         info = {"error": (p.stderr or p.stdout)[-400:]}
     out = dict(name="the real Cleaner gives identical output under different PYTHONHASHSEED values", level="bounded",
-               bound="3 contents (many peer host names on one line; keyword inside a host name; addresses, MACs, names, password mixed) x %d hash seeds" % n,
+               bound="4 contents (many peer host names on one line; keyword inside a host name; overlapping keywords; addresses, MACs, names, password mixed) x %d hash seeds" % n,
                result=info, violation=(p.returncode == 1), error=(p.returncode not in (0, 1)))
     if p.returncode == 1:
         os.makedirs(os.path.join(here, "replays"), exist_ok=True)
